@@ -700,6 +700,7 @@ def delete_rule(ctx):
             return
         return orig_stmt(st, state, trace)
     it.stmt = stmt
+    it.skip = lambda st: isinstance(st, (ast.Assign, ast.Expr))
     for member, disc in itertools.product([False, True], repeat=2):
         st = {'member': member, 'disconnect': disc}
         desc = 'delete(member=%d, disconnect=%d)' % (member, disc)
@@ -733,6 +734,10 @@ def delete_rule(ctx):
         lv = lp.target.id if isinstance(lp.target, ast.Name) else None
         # the only skip condition
         skips = [s for s in lp.body if isinstance(s, ast.If)]
+        extra = [s for s in lp.body if not isinstance(s, (ast.If, ast.For))]
+        for s in extra:
+            r.violation('the disconnect loop carries extra state (`%s`): whether a link is taken apart must depend on that link alone'
+                        % src(s)[:60], s, construct='xtuml.meta:MetaClass.delete', key='loop-state ' + src(s)[:40])
         for s in skips:
             if pm.match('%s not in %s' % (INST, lv), s.test) is not None and len(s.body) == 1 \
                     and isinstance(s.body[0], ast.Continue):
